@@ -37,6 +37,7 @@ import (
 	"github.com/ipfs/ipfs-cluster/state/dsstate"
 
 	cid "github.com/ipfs/go-cid"
+	logging "github.com/ipfs/go-log/v2"
 	host "github.com/libp2p/go-libp2p-core/host"
 	peer "github.com/libp2p/go-libp2p-core/peer"
 	peerstore "github.com/libp2p/go-libp2p-core/peerstore"
@@ -1096,7 +1097,13 @@ func (c *vC17Case) normalise() {
 		default:
 			continue
 		}
-		if op.At < 0 || op.At >= vc17NPeers || op.Target < 0 || op.Target >= vc17NPeers {
+		okIdx := func(x int) bool {
+			return (x >= 0 && x < vc17NPeers) || (c.Kind == "raft" && x >= 100 && x <= 103) // 100..: roles (leader, followers) of the raft rig
+		}
+		if !okIdx(op.At) || !okIdx(op.Target) {
+			continue
+		}
+		if c.Kind == "raft" && op.Op != "remove" && op.Op != "shutdown" && op.Op != "pin" && op.Op != "join" {
 			continue
 		}
 		if op.Out < 0 || op.Out > 2 {
@@ -1125,6 +1132,10 @@ func (c *vC17Case) normalise() {
 
 func TestVerifC17Cluster(t *testing.T) {
 	vc04Quiet()
+	if lv := os.Getenv("VERIF_C17_LOG"); lv != "" {
+		logging.SetLogLevel("raft", lv)
+		logging.SetLogLevel("cluster", lv)
+	}
 	vPeerUniverse(10)
 	vc04Universe()
 	seed := uint64(vEnvInt("VERIF_SEED", 1))
